@@ -261,7 +261,94 @@ def build() -> Check:
     ck.ob("R2.result-is-strict-json", c_w, not nan_bad,
           "the handler's result is serialised with json.dumps(..., allow_nan=True) (the default): a result containing float('nan') / float('inf') is answered SUCCEEDED with "
           "the text NaN / Infinity in it, which is not JSON")
+    _conversion_totality(ck, prog)
     return ck
+
+
+def _conversion_totality(ck, prog):
+    """Two rules from review round h2 (h2_C18 #1, #3). Classification happens in `except` arms; whatever those arms evaluate BEFORE they answer must not be
+    able to raise for an input that is merely unusual - an exception raised there escapes the wrapper unclassified (an AttributeError / TypeError
+    that Lambda retries for ever)."""
+    # R3 conversion of a foreign (botocore) exception: an attribute can be present AND None - getattr's default only covers absence.
+    # botocore.exceptions.HTTPClientError (ReadTimeoutError, ConnectionClosedError, ...) sets `self.response = response` with `response=None`.
+    import importlib.util
+    import pathlib
+    none_attrs: dict[str, list[str]] = {}
+    spec = importlib.util.find_spec("botocore")
+    if spec is not None and spec.submodule_search_locations:
+        src = pathlib.Path(list(spec.submodule_search_locations)[0]) / "exceptions.py"
+        if src.exists():
+            for c in ast.walk(ast.parse(src.read_text())):
+                if isinstance(c, ast.ClassDef):
+                    for f in c.body:
+                        if isinstance(f, ast.FunctionDef) and f.name == "__init__":
+                            defaults = dict(zip([a.arg for a in f.args.args][-len(f.args.defaults):], f.args.defaults)) if f.args.defaults else {}
+                            for st in ast.walk(f):
+                                if isinstance(st, ast.Assign) and isinstance(st.value, ast.Name) and isinstance(defaults.get(st.value.id), ast.Constant) \
+                                        and defaults[st.value.id].value is None:
+                                    for t in st.targets:
+                                        if isinstance(t, ast.Attribute) and isinstance(t.value, ast.Name) and t.value.id == "self":
+                                            none_attrs.setdefault(t.attr, []).append(c.name)
+    ck.analysed["botocore_attrs_that_may_be_none"] = {k: v for k, v in sorted(none_attrs.items())}
+    exm = prog.module("exceptions")
+    n_sites = 0
+    for fi in [f for c in exm.classes.values() for f in c.methods.values()] + list(exm.functions.values()):
+        params = {a.arg for a in fi.node.args.args}
+        for st in ast.walk(fi.node):
+            if not (isinstance(st, ast.Assign) and len(st.targets) == 1 and isinstance(st.targets[0], ast.Name)):
+                continue
+            v = st.value
+            if not (isinstance(v, ast.Call) and isinstance(v.func, ast.Name) and v.func.id == "getattr" and len(v.args) == 3
+                    and isinstance(v.args[0], ast.Name) and v.args[0].id in params and isinstance(v.args[1], ast.Constant)):
+                continue
+            if isinstance(v.args[2], ast.Constant) and v.args[2].value is None:
+                continue
+            name = st.targets[0].id
+            deref = [n for n in ast.walk(fi.node) if (isinstance(n, ast.Attribute) and isinstance(n.value, ast.Name) and n.value.id == name)
+                     or (isinstance(n, ast.Subscript) and isinstance(n.value, ast.Name) and n.value.id == name)]
+            if not deref:
+                continue
+            n_sites += 1
+            attr = v.args[1].value
+            ck.ob("R3.foreign-attribute-none-safe", fn_construct(fi), False,
+                  f"`{name} = {ast.unparse(v)}` and then `{ast.unparse(deref[0])}`: the default only applies when the attribute is missing; botocore exceptions "
+                  f"{none_attrs.get(attr, ['(botocore source not found)'])[:3]} carry {attr}=None (read timeout, closed connection) -> AttributeError inside the "
+                  "conversion, the background thread hands THAT on and the wrapper raises it raw instead of answering FAILED(CheckpointError)", where=f"line {st.lineno}")
+    # the guarded idiom must exist at least once (otherwise the conversion was rewritten and this rule looks at nothing)
+    guarded = sum(1 for fi in [f for c in exm.classes.values() for f in c.methods.values()] for n in ast.walk(fi.node)
+                  if isinstance(n, ast.BoolOp) and isinstance(n.op, ast.Or) and any(isinstance(x, ast.Call) and isinstance(x.func, ast.Name) and x.func.id == "getattr" for x in n.values))
+    ck.analysed["foreign_attribute_reads"] = {"unguarded": n_sites, "guarded": guarded}
+    if n_sites + guarded == 0:
+        raise AnalysisError("exceptions.py: no getattr-based read of a foreign exception found (conversion rewritten?)")
+    if not n_sites:
+        ck.ob("R3.foreign-attribute-none-safe", "exceptions.py", True, f"{guarded} guarded read(s)")
+
+    # R1 conversion of a USER exception into the error record: str(exception) runs user code (__str__); a class whose __str__ returns None / raises is an
+    # Exception like any other and has to end as FAILED
+    eo = prog.cls("lambda_service", "ErrorObject").methods.get("from_exception")
+    if eo is None:
+        raise AnalysisError("ErrorObject.from_exception not found")
+    p0 = [a.arg for a in eo.node.args.args][-1]
+    par = {}
+    for n in ast.walk(eo.node):
+        for c in ast.iter_child_nodes(n):
+            par[id(c)] = n
+    bad = []
+    n_str = 0
+    for n in ast.walk(eo.node):
+        if isinstance(n, ast.Call) and isinstance(n.func, ast.Name) and n.func.id in ("str", "repr", "format") and n.args and isinstance(n.args[0], ast.Name) and n.args[0].id == p0:
+            n_str += 1
+            cur, ok = par.get(id(n)), False
+            while cur is not None:
+                if isinstance(cur, ast.Try) and any(n is x for b in cur.body for x in ast.walk(b)) and cur.handlers:
+                    ok = True
+                cur = par.get(id(cur))
+            if not ok:
+                bad.append(n.lineno)
+    ck.floor("user_exception_text_sites", n_str, 1)
+    ck.ob("R1.user-exception-text-is-guarded", fn_construct(eo), not bad,
+          f"`str({p0})` (line {bad[0] if bad else 0}) runs the user's __str__ unprotected: for an Exception class whose __str__ returns None (`return self.message`) "
+          "the TypeError is raised inside the wrapper's `except Exception` arm and leaves the wrapper - a Lambda retry that fails the same way - instead of FAILED")
 
 
 if __name__ == "__main__":
